@@ -229,13 +229,13 @@ P("C13", module="AJ.Props.C13All", extra=[("AJ.Props.C13Gen", ["C13"]), ("AJ.Pro
   level_note="writes outside the destination on the binary are observed by ASan and the guard pattern; the model has destinations of fixed length by construction",
   suites=lambda tier: [S.ConvSuite(cfg=DEF), S.CopyArrSuite(cfg=DEF), S.MpDeSuite(cfg={"USE_LONG_LONG": 0}, n=500 if tier == "quick" else 30000)])
 
-P("C15", module="AJ.Props.C15All", extra=[("AJ.Props.SlotCor2", ["C15"]), ("AJ.Props.C15", ["C15"]), ("AJ.Props.C01Doc", ["C15"]), ("AJ.Props.C09Doc", ["C15"])], level_text="Theorems for JSON (filtered and unfiltered) and MessagePack, any bytes, any limit: Ok implies nesting <= L; L+1 opening brackets/headers give TooDeep after exactly "
+P("C15", module="AJ.Props.C15All", extra=[("AJ.Props.C15Gen", ["C15"]), ("AJ.Props.SlotCor2", ["C15"]), ("AJ.Props.C15", ["C15"]), ("AJ.Props.C01Doc", ["C15"]), ("AJ.Props.C09Doc", ["C15"])], level_text="C15.nesting_limit_table_is_source: for every (depth, limit) pair up to 12, JSON and MessagePack, the model's code and document left (partial documents included) are those the compiled library gives on every run (translator tie, 338 runs evaluated in the kernel). Theorems for JSON (filtered and unfiltered) and MessagePack, any bytes, any limit: Ok implies nesting <= L; L+1 opening brackets/headers give TooDeep after exactly "
   "L+1 bytes, also inside discarded parts; raising the limit changes nothing unless the result was TooDeep (never otherwise). Stack use is compared between inputs of depth L+1 and 2000.",
   level_note="stack bytes are observed on the binary; 'as soon as' for nested objects is covered by the correspondence",
   suites=lambda tier: [S.DepthSuite(cfg=DEF), S.DepthSuite(cfg=CFG_ALL)])
 
-P("C16", module="AJ.Props.C16All", extra=[("AJ.Props.SlotCor2", ["C16"]), ("AJ.Props.SlotCor", ["C16"]), ("AJ.Props.C01", ["C16"]), ("AJ.Props.C16", ["C16"]), ("AJ.Props.C16Seq", ["C16"]), ("AJ.Props.C09Doc", ["C16"])],
-  level_text="Theorems: deserializeJson consumes the leading white space and exactly the bytes of the top-level value, plus one byte when it is a number and something follows "
+P("C16", module="AJ.Props.C16All", extra=[("AJ.Props.C15Gen", ["C16"]), ("AJ.Props.SlotCor2", ["C16"]), ("AJ.Props.SlotCor", ["C16"]), ("AJ.Props.C01", ["C16"]), ("AJ.Props.C16", ["C16"]), ("AJ.Props.C16Seq", ["C16"]), ("AJ.Props.C09Doc", ["C16"])],
+  level_text="C16.stream_table_is_source: on 12 streams of documents the model's stream loop returns, call by call, the codes and documents that successive deserializeJson calls on one reader return in the compiled library (translator tie). Theorems: deserializeJson consumes the leading white space and exactly the bytes of the top-level value, plus one byte when it is a number and something follows "
   "(number_consumes_at_most_one_more, run_doc, exact_consumption); deserializeMsgPack consumes exactly the bytes of one object; C16.json_sequence / json_sequence_gen: for any list of documents "
   "of the dialect (any configuration and limit) written back to back, where only a number must be followed by a white-space byte, k successive calls return exactly the documents one after "
   "the other, then EmptyInput if white space is left (json_sequence_leftover says which bytes are left); number_needs_separator: a number followed directly by another value is InvalidInput; "
